@@ -752,9 +752,9 @@ func (x *Exec) stepValue(st *State, ins ssa.Instruction, v ssa.Value) bool {
 		x.v.noteUnsupported(x.shortFn(fr.fn), "type assertion / type switch")
 		set(x.symbolic(st, i.Type(), "ta"))
 	case *ssa.MakeChan:
-		st.tainted = "channel"
-		x.v.noteUnsupported(x.shortFn(fr.fn), "channel")
-		set(x.symbolic(st, i.Type(), "chan"))
+		// creating a channel is the allocation of an opaque object; operations on channels (send,
+		// receive, select, go) are outside the subset and taint the path where they occur
+		set(term(x.allocRef(st, "chan"), SInt, i.Type()))
 	case *ssa.Select:
 		st.tainted = "select"
 		set(x.symbolic(st, i.Type(), "select"))
